@@ -64,8 +64,16 @@ def gen_material(rng, mode=None):
         m["color_sets"] = [(name(rng, 1, 8), rng.randrange(4)) for _ in range(rng.choice([0, 1, 40]))]
     if m["textures"] and not large and rng.random() < 0.15:
         # a path stored as the tail of another one (offsets may point into the middle of a stored string)
-        t0 = m["textures"][0]
-        m["textures"].append(t0[rng.randrange(1, max(2, len(t0) - 4)):])
+        # ... also directly behind the path it is a tail of, and with multi-byte characters in front of the shared part
+        i0 = rng.randrange(len(m["textures"]))
+        t0 = m["textures"][i0]
+        cut = rng.randrange(1, max(2, len(t0) - 4))
+        if rng.random() < 0.5:
+            t0 = t0[:cut] + rng.choice(["é", "日本", "ß/ñ", "€"]).encode("utf-8") + t0[cut:]
+            cut += len(t0) - len(m["textures"][i0])
+            m["textures"][i0] = t0
+            m["nonascii_path"] = True
+        m["textures"].insert(i0 + 1 if rng.random() < 0.7 else len(m["textures"]), t0[cut:] if m.get("nonascii_path") else t0[rng.randrange(1, max(2, len(t0) - 4)):])
         m["share_suffix"] = True
     if len(m["textures"]) >= 2 and rng.random() < 0.3 and not m.get("share_suffix"):
         order = list(range(len(m["textures"]))); rng.shuffle(order)
@@ -130,7 +138,9 @@ def mtrl_case(ctx, rng):
     bad = {}
     if d["shader_package_name"] != m["shpk"].decode():
         bad["shader_package_name"] = (d["shader_package_name"], m["shpk"])
-    if d["texture_paths"] != [t.decode() for t in m["textures"]]:
+    # the property fixes no text encoding for paths (game data is ASCII): a path with bytes >= 0x80 may come back decoded as UTF-8 or
+    # byte by byte - but as exactly its own stored bytes either way
+    if d["texture_paths"] != [t.decode() for t in m["textures"]] and d["texture_paths"] != [t.decode("latin-1") for t in m["textures"]]:
         bad["texture_paths"] = (d["texture_paths"], m["textures"])
     if [(k["category"], k["value"]) for k in d["shader_keys"]] != m["keys"]:
         bad["shader_keys"] = d["shader_keys"]
@@ -318,6 +328,15 @@ def shpk_case(ctx, rng):
     # selector resolution: first of nodes-then-aliases carrying the selector
     table = [(n["selector"], i) for i, n in enumerate(nodes)] + list(aliases)
     probes = [s for s, _ in table] + [sels[-1], 0]
+    # the same question asked again straight away, hits and misses in every order: a lookup must not remember the previous one
+    absent = [x for x in (sels[-1], 0, 0xFFFFFFFF, (table[0][0] ^ 1) if table else 5) if all(x != s for s, _ in table)]
+    known = [s for s, _ in table]
+    for _ in range(3):
+        a = rng.choice(absent) if absent else None
+        k = rng.choice(known) if known else None
+        for x in rng.choice([(a, a), (k, k), (k, a, a), (a, k, a), (a, a, k, k), (k, a, k)]):
+            if x is not None:
+                probes.append(x)
     for sel in probes:
         r = ctx.call("shpk.find_node", h, sel)
         ctx.check_mon(r, len(data), files=[f])
